@@ -361,18 +361,38 @@ fn reject_only_strategy() -> BS<Case> {
 }
 
 fn known(c: &Case) -> Option<&'static str> {
-    if c.must_reject {
-        // "YYYY-02-30" / "-02-31" in a leap year
-        let b = c.s.as_bytes();
-        if b.len() >= 10 && &c.s[4..8] == "-02-" && (&c.s[8..10] == "30" || &c.s[8..10] == "31") {
-            if let Ok(y) = c.s[..4].parse::<i64>() {
-                if is_leap(y) {
-                    return Some("KF-feb30-leap-year");
-                }
-            }
-        }
+    if !c.must_reject {
+        return None;
     }
-    None
+    // "YYYY-02-30" / "-02-31" in a leap year
+    let b = c.s.as_bytes();
+    if !(b.len() >= 10 && c.s.is_ascii() && &c.s[4..8] == "-02-" && (&c.s[8..10] == "30" || &c.s[8..10] == "31")) {
+        return None;
+    }
+    let leap = matches!(c.s[..4].parse::<i64>(), Ok(y) if is_leap(y));
+    if !leap {
+        return None;
+    }
+    // a panic is never the known finding; and an accepting parser must return exactly what the finding predicts:
+    // the same date-time on 1 / 2 March
+    if run_all(&c.s, &c.f).is_err() {
+        return None;
+    }
+    let alt = format!("{}-03-{}{}", &c.s[..4], if &c.s[8..10] == "30" { "01" } else { "02" }, &c.s[10..]);
+    let same = |a: Option<Epoch>, b: Option<Epoch>| match (a, b) {
+        (None, _) => true,
+        (Some(x), Some(y)) => x.duration.to_parts() == y.duration.to_parts() && x.time_scale == y.time_scale,
+        _ => false,
+    };
+    let (s, f) = (c.s.as_str(), c.f.as_str());
+    if same(Epoch::from_str(s).ok(), Epoch::from_str(&alt).ok())
+        && same(Epoch::from_gregorian_str(s).ok(), Epoch::from_gregorian_str(&alt).ok())
+        && same(Epoch::from_format_str(s, f).ok(), Epoch::from_format_str(&alt, f).ok())
+    {
+        Some("KF-feb30-leap-year")
+    } else {
+        None
+    }
 }
 
 pub fn run_all(s: &str, f: &str) -> Result<(u32, [bool; 6]), String> {
